@@ -71,7 +71,7 @@ class Index:
                 continue
             roots.append(full)
         for root in roots:
-            for dp, dn, fns in os.walk(root):
+            for dp, dn, fns in os.walk(root, followlinks=True):
                 dn[:] = sorted(x for x in dn if x not in ('__pycache__', 'tests', 'build', 'dist') and not x.endswith('.egg-info'))
                 for f in sorted(fns):
                     if not f.endswith('.py') or f == 'setup.py':
